@@ -39,5 +39,27 @@ func Targets(seed int64) []*gen.Target {
 			out = append(out, byCfg[k])
 		}
 	}
+	// OpenVPN tls-crypt-v2 resets that the matcher unwraps with the server key alone (server_key set, no client_keys,
+	// timestamps ignored): the configurations in which unauthenticated bytes get furthest. They are rare among the
+	// first generator outputs, so they are looked for further down the stream.
+	extra := map[string]*gen.Target{}
+	for _, sd := range c14.Seeds("openvpn", seed, 3000) {
+		if sd.Opts.UDP || !strings.Contains(sd.Class, "crypt2") || !strings.Contains(sd.Config, `"ignore_timestamp":true`) ||
+			!strings.Contains(sd.Config, "server_key") || strings.Contains(sd.Config, "client_keys") || len(sd.Input) == 0 {
+			continue
+		}
+		t := extra[sd.Config]
+		if t == nil {
+			if len(extra) >= 3 {
+				continue
+			}
+			t = &gen.Target{Matcher: "openvpn", Config: sd.Config, Stream: true, Label: fmt.Sprintf("c14#crypt2-serverkey-%d", len(extra)+1)}
+			extra[sd.Config] = t
+			out = append(out, t)
+		}
+		if len(t.Seeds) < 6 {
+			t.Seeds = append(t.Seeds, sd.Input)
+		}
+	}
 	return out
 }
